@@ -1479,6 +1479,8 @@ static JanetSignal janet_continue_no_check(JanetFiber *fiber, Janet in, Janet *o
         if (janet_vm.root_fiber == NULL) janet_vm.root_fiber = fiber;
         JanetFiber *child = fiber->child;
         uint32_t instr = (janet_stack_frame(fiber->data + fiber->frame)->pc)[0];
+        /* This fiber is running again (inside its child): it must not look resumable meanwhile */
+        janet_fiber_set_status(fiber, JANET_STATUS_ALIVE);
         janet_vm.stackn++;
         JanetSignal sig = janet_continue(child, in, &in);
         janet_vm.stackn--;
